@@ -1,8 +1,11 @@
 CONFIG = {
-    'subs': ['RecordIO'],
+    'subs': ['RecordIO', 'Split'],
     'props_modules': ['DmlcModel.Props.C01', 'DmlcModel.Props.C01Witness'],
     'driver': 'RecordIO',
-    'harness': {'name': 'recordio', 'srcs': ['harness/h_recordio.cc'], 'args': ['--prop', 'C01']},
+    'harness': {'name': 'recordio', 'srcs': ['harness/h_recordio.cc', '$REPO/src/io/recordio_split.cc', '$REPO/src/io/input_split_base.cc',
+                         '$REPO/src/io/filesys.cc', '$REPO/src/io/local_filesys.cc', '$REPO/src/io.cc',
+                         '$REPO/src/io/line_split.cc', '$REPO/src/io/indexed_recordio_split.cc'],
+                'flags': ['-DDMLC_CORE_VERIF_BUFFER_WORDS=4'], 'args': ['--prop', 'C01']},
     'rule': 'cases = record sequences (exhaustive over a magic-centred word alphabet x tail 0-3 for <=3 words, '
             'all sequences of <=3 records over a 7-record set, random magic-laden sequences, long records, '
             'malformed streams); a case is non-trivial when it writes at least one record; distinct = distinct '
